@@ -1133,6 +1133,50 @@ func c01Ops(p *c01Pool) []c01Op {
 			return true
 		})
 	}
+	// the same on the Response, and Signature children that are mere shells: more than one ds:Signature child is an error of the message,
+	// never a reason to skip the verification
+	for _, order := range []string{"attacker-first", "trusted-first"} {
+		order := order
+		add("dup-signature-on-Response/"+order, func(root *etree.Element, p *c01Pool) bool {
+			r := theResponse(root)
+			if r == nil || firstSig(r) == nil {
+				return false
+			}
+			s := firstSig(p.signedEatk).Copy()
+			if order == "attacker-first" {
+				r.InsertChildAt(firstSig(r).Index(), s)
+			} else {
+				r.InsertChildAt(firstSig(r).Index()+1, s)
+			}
+			return true
+		})
+	}
+	for _, n := range []int{1, 2} {
+		for _, where := range []string{"Response", "A"} {
+			n, where := n, where
+			add(fmt.Sprintf("empty-signature-shells/%d-on-%s", n, where), func(root *etree.Element, p *c01Pool) bool {
+				var target *etree.Element
+				if where == "Response" {
+					target = theResponse(root)
+				} else {
+					target = theA(root)
+				}
+				if target == nil {
+					return false
+				}
+				at := 1
+				if len(target.ChildElements()) == 0 {
+					at = 0
+				}
+				for i := 0; i < n; i++ {
+					sh := etree.NewElement("ds:Signature")
+					sh.CreateAttr("xmlns:ds", samlgen.NSDsig)
+					target.InsertChildAt(at, sh)
+				}
+				return true
+			})
+		}
+	}
 	add("replace-A-with-evil", func(root *etree.Element, p *c01Pool) bool {
 		a := theA(root)
 		if a == nil || a.Parent() == nil {
@@ -1410,6 +1454,7 @@ func runC01(c *core.Ctx) {
 		}
 	}
 
+	c.Affinity(-1) // (the groups below are sharded case by case again)
 	c01ArtifactEnvelopes(c, pool, sps)
 
 	c.Group("no-signing-key-published")
